@@ -330,9 +330,10 @@ CAMLprim value vp_peek(value ptr, value n) { return mk_string((const uint8_t *) 
 #undef munmap
 static int vp_mmap_mode = 0;
 static struct { void *user; void *base; size_t total; } vp_maps[64];
+static void *vp_last_map_base = NULL; static size_t vp_last_map_len = 0;   /* the most recent mapping reader.c made (mode 0) */
 void *vp_mmap(void *addr, size_t length, int prot, int flags, int fd, off_t offset)
 {
-	if (vp_mmap_mode == 0 || length == 0) return mmap(addr, length, prot, flags, fd, offset);
+	if (vp_mmap_mode == 0 || length == 0) { void *q = mmap(addr, length, prot, flags, fd, offset); if (q != MAP_FAILED) { vp_last_map_base = q; vp_last_map_len = length; } return q; }
 	size_t pg = 4096, data_pages = (length + pg - 1) / pg;
 	size_t total = (data_pages + 2) * pg;
 	uint8_t *base = mmap(NULL, total, PROT_READ | PROT_WRITE, MAP_PRIVATE | MAP_ANONYMOUS, -1, 0);
@@ -352,6 +353,13 @@ int vp_munmap(void *addr, size_t length)
 	return munmap(addr, length);
 }
 CAMLprim value vp_set_mmap_mode(value m) { vp_mmap_mode = Long_val(m); return Val_unit; }
+/* (base, length) of the most recent file mapping made through the shim */
+CAMLprim value vp_last_mmap(value unit)
+{
+	CAMLparam1(unit); CAMLlocal1(r);
+	r = caml_alloc_tuple(2); Store_field(r, 0, mk_ptr(vp_last_map_base)); Store_field(r, 1, Val_long(vp_last_map_len));
+	CAMLreturn(r);
+}
 
 /* ---- CRC-32C: both implementations regardless of the host CPU ------------------- */
 uint32_t my_crc32c_slicing(const uint8_t *, size_t);
